@@ -484,7 +484,7 @@ func TestC13(t *testing.T) {
 				}
 				// a handler that takes seconds (a slow backend, a policy lookup) before or after its reply: still "whatever
 				// the handler's timing" - beyond any plausible fixed budget for the negotiation (one session in 40)
-				if rapid.IntRange(0, 39).Draw(t, "veryslow") == 0 {
+				if rapid.IntRange(0, 39).Draw(t, "veryslow") == 17 {
 					v := rapid.SampledFrom([][2]int{{5500, 0}, {0, 5500}, {3000, 3000}, {0, 2100}}).Draw(t, "veryslowms")
 					s.D1, s.D2 = v[0], v[1]
 				}
